@@ -127,7 +127,7 @@ def listed_states(m, explicit_list):
 
 
 def build_pomdp(m, *, labels="int", alabels="int", olabels="int", explicit_list=False, dist="dict",
-                odist="dict", outside=None, rng=None, **_ignored):
+                odist="dict", outside=None, rng=None, statedep_actions=False, **_ignored):
     """labels/alabels/olabels in build.LABEL_KINDS; dist/odist in {"dict","dict_zeros","det","uniform"}.
 
     With "dict_zeros" zero-probability entries are listed for members of the state / observation
@@ -189,6 +189,8 @@ def build_pomdp(m, *, labels="int", alabels="int", olabels="int", explicit_list=
             return float(m["R"][sidx[s]][aidx[a]][sidx[ns]])
 
         def actions(self, s):
+            if statedep_actions:    # opt-in (C07): honour m["avail"]; the default keeps every action everywhere
+                return tuple(al[a] for a in range(K) if m["avail"][sidx[s]][a])
             return tuple(al)
 
         def initial_state_dist(self):
@@ -332,3 +334,33 @@ def plant_rare_observation(rng, m):
     w[rng.choice(others)] = 1
     beliefs.append(w)
     return t, a, o, beliefs
+
+
+# ---------------------------------------------------------------------------------------------
+# state-dependent action sets with defined POMDP semantics (use build_pomdp(..., statedep_actions=True))
+# ---------------------------------------------------------------------------------------------
+def restrict_actions(rng, m, p_abs=0.8, p_other=0.25):
+    """Rewrites m["avail"] IN PLACE: absorbing (terminal) states, and a few non-absorbing ones, offer only
+    a non-empty subset of the actions; every action stays available somewhere among the non-absorbing
+    states.  The kernels P[s][a] / O[a][n] stay defined for every pair.  Returns True iff some entry
+    was cleared.  The filter / belief MDP are only meaningful for actions in allowed_actions(m, w)."""
+    N, K = m["N"], m["K"]
+    if K < 2:
+        return False
+    changed = False
+    for s in range(N):
+        if rng.random() < (p_abs if m["abs"][s] else p_other):
+            keep = set(rng.sample(range(K), rng.randint(1, K - 1)))
+            for a in range(K):
+                if a not in keep:
+                    m["avail"][s][a] = 0
+                    changed = True
+    for a in range(K):       # keep the action list complete
+        if not any(m["avail"][s][a] for s in range(N)):
+            m["avail"][rng.randrange(N)][a] = 1
+    return changed
+
+
+def allowed_actions(m, w):
+    """Actions available in every state of the support of the weight vector w."""
+    return [a for a in range(m["K"]) if all(m["avail"][s][a] for s in range(m["N"]) if w[s] > 0)]
